@@ -25,6 +25,8 @@
   `eval` is plain evaluation (`op(field)`); `lin e ρ wm` is what `op(Linearization.make_var(ρ, wm))` returns:
   the value, the Jacobian as the composed operator (`jac` = TIMES, `adj` = ADJOINT_TIMES) and the metric,
   transcribing `Linearization.__mul__/_myadd/ptw/vdot/sum/prepend_jac/__getitem__`, `_OpChain/_OpProd/_OpSum.apply`,
+  Adjoints conjugate their coefficients (`Conj.conj`, the identity on real number types; complex mode of the driver covers
+  the holomorphic nodes only).
   `LinearOperator.__call__` (drops the metric), `ScalingOperator.__call__` (scales it), `Squared2NormOperator/QuadraticFormOperator/GaussianEnergy.apply`.
 -/
 import NiftyVerif.Gen.Pointwise
@@ -117,7 +119,7 @@ def Ex.inDom {K : Type} : Ex K → Dom
 
 section defs
 variable {K : Type} [Zero K] [Add K] [Sub K] [Mul K] [Div K] [Neg K] [OfScientific K]
-  [LT K] [DecidableLT K] [LE K] [DecidableLE K] [Transc K]
+  [LT K] [DecidableLT K] [LE K] [DecidableLE K] [Transc K] [Conj K]
 
 /-- `Σ_{i<n} f i` -/
 def rsum (n : Nat) (f : Nat → K) : K := ((List.range n).map f).sum
@@ -201,12 +203,13 @@ def lin : Ex K → MVal K → Bool → Lz K
       { val := fun k i => la.val k i * lb.val k i,
         -- makeOp(lin1.val)(lin2.jac) + makeOp(lin2.val)(lin1.jac)
         jac := fun h k i => la.val k i * lb.jac h k i + lb.val k i * la.jac h k i,
-        adj := fun y k i => lb.adj (fun k' j => la.val k' j * y k' j) k i + la.adj (fun k' j => lb.val k' j * y k' j) k i,
+        adj := fun y k i => lb.adj (fun k' j => Conj.conj (la.val k' j) * y k' j) k i
+                 + la.adj (fun k' j => Conj.conj (lb.val k' j) * y k' j) k i,
         metric := none }
   | .scale c a, ρ, wm =>
       let la := lin a ρ wm
       { val := fun k i => c * la.val k i, jac := fun h k i => c * la.jac h k i,
-        adj := fun y => la.adj (fun k i => c * y k i),
+        adj := fun y => la.adj (fun k i => Conj.conj c * y k i),
         -- ScalingOperator.__call__: a non-negative real factor scales the metric (sandwich with sqrt), others drop it
         metric := if (0 : K) ≤ c then la.metric.map (fun M h k i => c * M h k i) else none }
   | .addc c neg a, ρ, wm =>
@@ -216,19 +219,19 @@ def lin : Ex K → MVal K → Bool → Lz K
   | .mulc d a, ρ, wm =>
       let la := lin a ρ wm
       { val := fun k i => ofList d i * la.val k i, jac := fun h k i => ofList d i * la.jac h k i,
-        adj := fun y => la.adj (fun k i => ofList d i * y k i), metric := none }
+        adj := fun y => la.adj (fun k i => Conj.conj (ofList d i) * y k i), metric := none }
   | .ptw f p a, ρ, wm =>
       let la := lin a ρ wm
       { val := mask a.dom (fun k i => f.hval p (la.val k i)),
         -- makeOp(t2)(self._jac)
         jac := fun h => mask a.dom (fun k i => f.der p (la.val k i) * la.jac h k i),
-        adj := fun y => la.adj (mask a.dom (fun k i => f.der p (la.val k i) * y k i)),
+        adj := fun y => la.adj (mask a.dom (fun k i => Conj.conj (f.der p (la.val k i)) * y k i)),
         metric := none }
   | .lin m n rows a, ρ, wm =>
       let la := lin a ρ wm
       { val := single (fun i => if i < m then rsum n (fun j => mat rows i j * la.val "" j) else 0),
         jac := fun h => single (fun i => if i < m then rsum n (fun j => mat rows i j * la.jac h "" j) else 0),
-        adj := fun y => la.adj (single (fun j => if j < n then rsum m (fun i => mat rows i j * y "" i) else 0)),
+        adj := fun y => la.adj (single (fun j => if j < n then rsum m (fun i => Conj.conj (mat rows i j) * y "" i) else 0)),
         metric := none }
   | .sum a, ρ, wm =>
       let la := lin a ρ wm
@@ -295,9 +298,9 @@ def lin : Ex K → MVal K → Bool → Lz K
                    ten T o i j * (la.jac h "" i * lb.val "" j + la.val "" i * lb.jac h "" j))) else 0),
         adj := fun y k i' =>
           la.adj (single (fun i => if i < na then
-                    rsum m (fun o => rsum nb (fun j => ten T o i j * lb.val "" j * y "" o)) else 0)) k i'
+                    rsum m (fun o => rsum nb (fun j => Conj.conj (ten T o i j * lb.val "" j) * y "" o)) else 0)) k i'
           + lb.adj (single (fun j => if j < nb then
-                    rsum m (fun o => rsum na (fun i => ten T o i j * la.val "" i * y "" o)) else 0)) k i',
+                    rsum m (fun o => rsum na (fun i => Conj.conj (ten T o i j * la.val "" i) * y "" o)) else 0)) k i',
         metric := none }
   | .varcov n a b, ρ, wm =>
       let la := lin a ρ wm; let lb := lin b ρ wm
